@@ -2,11 +2,8 @@
 
 Contracts are stated on the API-level harnesses of verif/harness/txcodec.py (objects are built through the
 constructors from symbolic plain data) against the independent spec verif/specs/txwire.py."""
-import z3
-
 from .common import *  # noqa
-from verif.pyvc.values import HList, HObj, Ref
-from verif.pyvc.engine import PyExc, Undecided
+from verif.pyvc.values import HList
 
 H = "verif.harness.txcodec."
 U32 = ("int", 0, 2**32 - 1)
@@ -40,53 +37,6 @@ def ntxout(spk=None):
 
 def ntx(ins, outs):
     return tup(U32, lst(*ins), lst(*outs), U32)
-
-
-# ---------------------------------------------------------------------------- model of the int subclasses
-class U32Model:
-    """The engine has no int-subclass instances.  `buidl.timelock.Sequence` / `Locktime` are modelled for the
-    machine of one contract: `X(n)` = range check of `X.__new__` (ValueError outside [0, 2**32-1]) yielding an
-    object that holds n; `X.serialize()` = n.to_bytes(4, 'little') (the body of the real method).
-    Extra trusted-base item A-U32MODEL; the concrete (bounded) runs use the real classes."""
-
-    def __init__(self, *more):
-        self.more = more
-
-    def __call__(self, m, env):
-        from buidl.timelock import Locktime, Sequence
-        for cls, default in ((Locktime, 0), (Sequence, 0xFFFFFFFF)):
-            m.intrinsics[cls] = self._new(cls, default)
-            m.intrinsics[cls.serialize] = self._ser
-        for s in self.more:
-            s(m, env)
-
-    @staticmethod
-    def _unwrap(m, v):
-        if isinstance(v, Ref):
-            o = m.p.deref(v)
-            if isinstance(o, HObj) and "_u32" in o.fields:
-                return o.fields["_u32"]
-        return v
-
-    def _new(self, cls, default):
-        def new(m, args, kwargs):
-            n = args[0] if args else kwargs.get("n", default)
-            n = self._unwrap(m, n)
-            if not m.is_int(n):
-                raise Undecided("U32Model: %s(%r)" % (cls.__name__, n))
-            t = m.it(n)
-            if not m.p.branch(z3.And(t >= 0, t <= 0xFFFFFFFF)):
-                raise PyExc(ValueError)
-            return m.p.alloc(HObj(cls, {"_u32": n}))
-        return new
-
-    def _ser(self, m, args, kwargs):
-        return m.int_to_bytes(self._unwrap(m, args[0]), 4, "little")
-
-    def conc(self, env, glob):
-        for s in self.more:
-            if hasattr(s, "conc"):
-                s.conc(env, glob)
 
 
 # ---------------------------------------------------------------------------- generators: scripts
@@ -224,11 +174,11 @@ def _gen_u32(rng, tier):
 
 
 for _c in ("locktime", "sequence"):
-    contract(H + _c + "_ser", props=("C04",), params={"n": "int"}, setup=U32Model(),
+    contract(H + _c + "_ser", props=("C04",), params={"n": "int"},
              raises={"ValueError": "n < 0 or n > 0xFFFFFFFF"},
              ensures=["implies(returns(), result == spec.le(n, 4))"], gen=_gen_u32)
     contract(H + _c + "_parse", props=("C04",), ghost={"n": U32, "tail": "bytes"},
-             setup=U32Model(StreamOf("spec.le(n, 4) + tail")), args=["s"],
+             setup=StreamOf("spec.le(n, 4) + tail"), args=["s"],
              ensures=["returns()", "implies(returns(), result == spec.le(n, 4))", "implies(returns(), s.read() == tail)"],
              gen=_gen_u32)
 
@@ -332,11 +282,11 @@ def _gen_txout(rng, tier):
 # ---------------------------------------------------------------------------- TxIn / TxOut
 SIG_SHAPES = {"push": [PUSH], "empty": [], "push_push": [PUSH, PUSH], "op_push_op": [OPCODE, PUSH, OPCODE]}
 for _nm, _shape in SIG_SHAPES.items():
-    contract(H + "txin_ser#" + _nm, props=("C04",), params={"i": ntxin(_shape)}, setup=U32Model(),
+    contract(H + "txin_ser#" + _nm, props=("C04",), params={"i": ntxin(_shape)},
              ensures=["returns()", "implies(returns(), result == spec.txwire.txin_ser(i))"],
              gen=_gen_txin if _nm == "push" else None)
     contract(H + "txin_parse#" + _nm, props=("C04",), ghost={"i": ntxin(_shape), "tail": "bytes"},
-             setup=U32Model(StreamOf("spec.txwire.txin_ser(i) + tail")), args=["s"],
+             setup=StreamOf("spec.txwire.txin_ser(i) + tail"), args=["s"],
              ensures=["returns()",
                       "implies(returns(), result[0] == i[0] and result[1] == i[1])",
                       "implies(returns(), result[2][0] == spec.txwire.canon(i[2]) and result[2][1] is None)",
@@ -377,15 +327,15 @@ for _nm, (_ins, _outs) in TX_SHAPES.items():
     _g = _nm == "1x1"
     _T = ntx(_ins, _outs)
     # encoders: serialize() is the BIP144 form when the object says segwit, the original form otherwise
-    contract(H + "tx_ser#legacy_" + _nm, props=("C04",), params={"tx": _T, "segwit": const(False)}, setup=U32Model(),
+    contract(H + "tx_ser#legacy_" + _nm, props=("C04",), params={"tx": _T, "segwit": const(False)},
              ensures=["returns()", "implies(returns(), result == spec.txwire.legacy_ser(tx))"],
              gen=with_(gen_ntx(True), segwit=False) if _g else None)
-    contract(H + "tx_ser#segwit_" + _nm, props=("C04",), params={"tx": _T, "segwit": const(True)}, setup=U32Model(),
+    contract(H + "tx_ser#segwit_" + _nm, props=("C04",), params={"tx": _T, "segwit": const(True)},
              ensures=["returns()", "implies(returns(), result == spec.txwire.segwit_ser(tx))"],
              gen=with_(gen_ntx(True), segwit=True) if _g else None)
     # txid: reversed double-SHA256 of the witness-stripped serialisation; the right-hand side contains no witness
     # value, hence the id is the same for every witness and for both values of the segwit flag
-    contract(H + "tx_hash#" + _nm, props=("C04",), params={"tx": _T, "segwit": "bool"}, setup=U32Model(),
+    contract(H + "tx_hash#" + _nm, props=("C04",), params={"tx": _T, "segwit": "bool"},
              ensures=["returns()",
                       "implies(returns(), result == spec.txwire.txid_bytes(tx))",
                       "implies(returns(), result == spec.hash256(spec.txwire.legacy_ser(spec.txwire.strip_witness(tx)))[::-1])"],
@@ -393,39 +343,39 @@ for _nm, (_ins, _outs) in TX_SHAPES.items():
     # decoders
     contract(H + "tx_parse#legacy_" + _nm, props=("C04",), ghost={"tx": _T, "tail": "bytes"},
              requires=["len(tx[1]) >= 1"],
-             setup=U32Model(StreamOf("spec.txwire.legacy_ser(tx) + tail")), args=["s"],
+             setup=StreamOf("spec.txwire.legacy_ser(tx) + tail"), args=["s"],
              ensures=["returns()", "implies(returns(), result == spec.txwire.tx_fields(tx, False))",
                       "implies(returns(), s.read() == tail)"],
              gen=with_(gen_ntx(False), tail=b"\x01") if _g else None)
     contract(H + "tx_parse#segwit_" + _nm, props=("C04",), ghost={"tx": _T, "tail": "bytes"},
-             setup=U32Model(StreamOf("spec.txwire.segwit_ser(tx) + tail")), args=["s"],
+             setup=StreamOf("spec.txwire.segwit_ser(tx) + tail"), args=["s"],
              ensures=["returns()", "implies(returns(), result == spec.txwire.tx_fields(tx, True))",
                       "implies(returns(), s.read() == tail)"],
              gen=with_(gen_ntx(True), tail=b"") if _g else None)
     # parse then re-serialise reproduces the input bytes; the id of a parsed segwit transaction is the BIP141 txid
     contract(H + "tx_parse_reser#legacy_" + _nm, props=("C04",), ghost={"tx": _T},
              requires=["len(tx[1]) >= 1"],
-             setup=U32Model(StreamOf("spec.txwire.legacy_ser(tx)")), args=["s"],
+             setup=StreamOf("spec.txwire.legacy_ser(tx)"), args=["s"],
              ensures=["returns()", "implies(returns(), result == spec.txwire.legacy_ser(tx))"],
              gen=gen_ntx(False) if _g else None)
     contract(H + "tx_parse_reser#segwit_" + _nm, props=("C04",), ghost={"tx": _T},
-             setup=U32Model(StreamOf("spec.txwire.segwit_ser(tx)")), args=["s"],
+             setup=StreamOf("spec.txwire.segwit_ser(tx)"), args=["s"],
              ensures=["returns()", "implies(returns(), result == spec.txwire.segwit_ser(tx))"],
              gen=gen_ntx(True) if _g else None)
     contract(H + "tx_parse_hash#segwit_" + _nm, props=("C04",), ghost={"tx": _T},
-             setup=U32Model(StreamOf("spec.txwire.segwit_ser(tx)")), args=["s"],
+             setup=StreamOf("spec.txwire.segwit_ser(tx)"), args=["s"],
              ensures=["returns()", "implies(returns(), result == spec.txwire.txid_bytes(tx))"],
              gen=gen_ntx(True) if _g else None)
 
 # serialise-then-parse of a transaction built through the API reproduces every field
-contract(H + "tx_roundtrip#segwit", props=("C04",), params={"tx": ntx(*TX_SHAPES["2x2"]), "segwit": const(True)}, setup=U32Model(),
+contract(H + "tx_roundtrip#segwit", props=("C04",), params={"tx": ntx(*TX_SHAPES["2x2"]), "segwit": const(True)},
          ensures=["returns()", "implies(returns(), result == spec.txwire.tx_fields(tx, True))"],
          gen=with_(gen_ntx(True), segwit=True))
-contract(H + "tx_roundtrip#legacy", props=("C04",), params={"tx": ntx(*TX_SHAPES["2x2"]), "segwit": const(False)}, setup=U32Model(),
+contract(H + "tx_roundtrip#legacy", props=("C04",), params={"tx": ntx(*TX_SHAPES["2x2"]), "segwit": const(False)},
          requires=["len(tx[1]) >= 1"],
          ensures=["returns()", "implies(returns(), result == spec.txwire.tx_fields(spec.txwire.strip_witness(tx), False))"],
          gen=with_(gen_ntx(True), segwit=False))
-contract(H + "tx_id", props=("C04",), params={"tx": ntx(*TX_SHAPES["1x1"]), "segwit": "bool"}, setup=U32Model(),
+contract(H + "tx_id", props=("C04",), params={"tx": ntx(*TX_SHAPES["1x1"]), "segwit": "bool"},
          ensures=["returns()", "implies(returns(), result == spec.txwire.txid(tx))"],
          gen=with_(gen_ntx(True), segwit=True))
 
